@@ -10,7 +10,7 @@ EXPLANATION = ("Coroutine-witness analysis: rustc's coroutine layout gives, for 
                "because the losing branch is dropped each iteration and the bytes it consumed are lost. Every select site, "
                "every branch, and every await of a progress-carrying future in both crates is enumerated with its cancellation "
                "context; the EOF classification (ImmediateFin iff nothing read) is checked as a decision table."
-               ' Also (C05-R6/R7): buffered readers commit the child reader only when a frame was returned; the adapter that feeds control-plane bytes to the parsers reports exactly the bytes quinn filled. C05-R8: the worker loop that polls the control, request and session streams suspends only in its select!; a branch handler that waits (for instance for room in the datagram or stream queue of the application) would stop every control-plane stream from being read while datagrams / streams arrive between the pieces.')
+               ' Also (C05-R6/R7): buffered readers commit the child reader only when a frame was returned; the adapter that feeds control-plane bytes to the parsers reports exactly the bytes quinn filled. C05-R8: the worker loop that polls the control, request and session streams suspends only in its select!; a branch handler that waits (for instance for room in the datagram or stream queue of the application) would stop every control-plane stream from being read while datagrams / streams arrive between the pieces. C05-R9: the decision tables of Worker::handle_bi_h3_stream / handle_uni_h3_stream are the reference ones, so the fate of a request or critical stream depends on its own first frame and on its own slot only, not on the progress of another stream (for instance whether SETTINGS has been read yet).')
 NOT_DECIDED = ["the outcome under one concrete packetisation (needs the running driver)", "quinn's own reassembly"]
 TRUSTED = ["rustc coroutine layout (mir state transform)", "reviewed leaf-future table in engine/corowit.py", "tokio::select! drops losing branch futures"]
 
@@ -144,6 +144,10 @@ def run(ctx):
 
     ctx.rule("C05-R3", "EOF classification: ImmediateFin iff nothing was read; later fields map ImmediateFin->UnexpectedFin")
     eof_rules(ctx, "C05-R3")
+
+    ctx.rule("C05-R9", "what else has arrived does not decide a request's fate: the worker's handlers of a new H3 stream consult only the stream's own first frame / kind and the slot it would occupy")
+    shared.handle_bi_table(ctx, "C05-R9")
+    shared.handle_uni_table(ctx, "C05-R9")
 
 
 def eof_rules(ctx, rid):
